@@ -462,60 +462,136 @@ def expr_pairing(ctx):
             ctx.ok(c, fn, entries=len(want))
 
 
-@rule("C18.expr-placeholders", props=["C18"], min_instances=1, mutants=[
+@rule("C18.expr-placeholders", props=["C18"], min_instances=3, mutants=[
     ("placeholders created from grades", ("matrixreps", "symbolic_rest = [alg.multivector(name=string.ascii_uppercase[i], keys=mv.keys()) for i, mv in enumerate(rest)]", "symbolic_rest = [alg.multivector(name=string.ascii_uppercase[i], grades=mv.grades) for i, mv in enumerate(rest)]")),
     ("placeholders paired with reversed inputs", ("matrixreps", "for smv, mv in zip(symbolic_rest, rest))))", "for smv, mv in zip(symbolic_rest, reversed(rest)))))")),
+    ("all placeholders share one name", ("matrixreps", "alg.multivector(name=string.ascii_uppercase[i], keys=mv.keys()) for i, mv in enumerate(rest)]", "alg.multivector(name=string.ascii_uppercase[0], keys=mv.keys()) for i, mv in enumerate(rest)]")),
+    ("x is not passed on to the symbolic evaluation", ("matrixreps", "        symbolic_inputs = [*symbolic_rest, x]", "        symbolic_inputs = [*symbolic_rest, symbolic_rest[-1]]")),
 ])
 def expr_placeholders(ctx):
-    """Array-valued inputs of expr_as_matrix are replaced by symbolic placeholders created with the input's own key
-    tuple, and placeholder symbols are paired with the values of that same input (ORD)."""
+    """The array-valued numeric branch of expr_as_matrix, interpreted from source on two numeric inputs stored in
+    non-canonical key order: every input is replaced by a symbolic placeholder with that input's own key tuple and a
+    name of its own, the expression is evaluated once on (placeholders..., x), the matrix is evaluated with every
+    placeholder symbol bound to the value at the same position of the same input, and y with these bindings plus
+    x's own symbols."""
+    repo = ctx.repo
     q = "matrixreps.expr_as_matrix"
     fn = ctx.func(q)
-    from ..astx import call_name, kwarg
-    comps = [n for n in ast.walk(fn) if isinstance(n, ast.ListComp) and isinstance(n.elt, ast.Call)
-             and (call_name(n.elt) or "").endswith("multivector") and kwarg(n.elt, "name") is not None]
-    if not comps:
-        raise Unknown(q, "no placeholder construction found", fn)
-    for comp in comps:
-        g = comp.generators[0]
-        loopvars = [x.id for x in ast.walk(g.target) if isinstance(x, ast.Name)]
-        keys = kwarg(comp.elt, "keys")
-        c = f"{q}#placeholders"
-        if keys is not None and isinstance(keys, ast.Call) and un(keys.func).endswith(".keys") and un(keys.func.value) in loopvars \
-                and "rest" in un(g.iter):
-            ctx.ok(c, comp, keys=un(keys))
-        else:
-            ctx.violation(c, f"symbolic placeholders for array-valued inputs are created as {un(comp.elt)}: they must have the "
-                             f"input's own key tuple (keys=<input>.keys()), because their symbols are paired position by "
-                             f"position with the input's values", comp)
-    # the pairing zip(smv.values(), mv.values()) runs over zip(symbolic_rest, rest)
-    pair = [n for n in ast.walk(fn) if isinstance(n, ast.GeneratorExp) and isinstance(n.elt, ast.Call) and call_name(n.elt) == "zip"
-            and len(n.elt.args) == 2 and all(un(a).endswith(".values()") for a in n.elt.args)]
-    c = f"{q}#value-pairing"
-    if not pair:
-        raise Unknown(c, "no symbol/value pairing found", fn)
-    g = pair[0].generators[0]
-    # names: the list the placeholders were bound to, and the iterable they were created from
-    placeholder_var = None
-    for st in ast.walk(fn):
-        if isinstance(st, ast.Assign) and st.value in comps and isinstance(st.targets[0], ast.Name):
-            placeholder_var = st.targets[0].id
-    src_iter = comps[0].generators[0].iter
-    source_var = un(src_iter.args[0]) if isinstance(src_iter, ast.Call) and call_name(src_iter) == "enumerate" and src_iter.args else un(src_iter)
-    it_ = g.iter
-    ok_shape = isinstance(it_, ast.Call) and call_name(it_) == "zip" and len(it_.args) == 2 and isinstance(g.target, ast.Tuple) \
-        and len(g.target.elts) == 2
-    if not ok_shape or placeholder_var is None:
-        raise Unknown(c, f"unrecognised pairing {un(pair[0])[:100]}", pair[0])
-    a0, a1 = un(it_.args[0]), un(it_.args[1])
-    t0, t1 = un(g.target.elts[0]), un(g.target.elts[1])
-    e0, e1 = [un(a) for a in pair[0].elt.args]
-    aligned = (a0, a1) == (placeholder_var, source_var) and (e0, e1) == (f"{t0}.values()", f"{t1}.values()")
-    mirrored = (a0, a1) == (source_var, placeholder_var) and (e0, e1) == (f"{t1}.values()", f"{t0}.values()")
-    if aligned or mirrored:
-        ctx.ok(c, pair[0], pairing=un(pair[0])[:80])
-    elif {a0, a1} <= {placeholder_var, source_var} or any(k in un(it_) for k in ("reversed", "[::-1]", "sorted")):
-        ctx.violation(c, f"placeholder symbols are paired with input values through {un(pair[0])[:100]}: placeholder i must be "
-                         f"paired with input i, symbol list first", pair[0])
+    alg = rep_algebra(3)
+    shape2 = (2, 5)
+
+    def num_mv(keys, tag):
+        vals = [Obj("ndarray", {"fmt": f"{tag}[{k}]", "shape": shape2}) for k in keys]
+        mv = mv_obj(alg, keys, vals)
+        mv.attrs["issymbolic"] = False
+        mv.attrs["shape"] = (len(keys),) + shape2
+        return mv
+    rest = [num_mv((6, 5, 3), "B"), num_mv((2, 0), "C")]
+    xsyms = [Obj("symbol", {"fmt": "x1", "name": "x1"}), Obj("symbol", {"fmt": "x2", "name": "x2"}), Obj("symbol", {"fmt": "x4", "name": "x4"})]
+    x = mv_obj(alg, (1, 2, 4), xsyms)
+    x.attrs["issymbolic"] = True
+    x.attrs["shape"] = (3,)
+    made = []
+
+    def multivector(*a, **kw):
+        name = kw.get("name")
+        keys = kw.get("keys")
+        if name is None or a:
+            return Unk("multivector(...)")
+        if keys is None and "grades" in kw:
+            g = tuple(kw["grades"])
+            keys = tuple(alg.attrs["indices_for_grades"][g]) if "indices_for_grades" in alg.attrs else tuple(
+                k for k in alg.attrs["canon2bin"].values() if bin(k).count("1") in g)
+        if keys is None:
+            return Unk("multivector(name=...)")
+        keys = tuple(keys)
+        mv = mv_obj(alg, keys, [Obj("symbol", {"fmt": f"{name}{k}", "name": f"{name}{k}"}) for k in keys])
+        mv.attrs["issymbolic"] = True
+        mv.attrs["shape"] = (len(keys),)
+        made.append((name, keys, mv))
+        return mv
+    alg.methods["multivector"] = multivector
+    rec = {}
+    A_tok = Obj("matrix", {"fmt": "A_symbolic"})
+
+    def y_call(*a, **kw):
+        rec["y_kwargs"] = dict(kw)
+        return Obj("mv", {"fmt": "y_numeric"})
+    y_tok = Obj("mv-callable", {"fmt": "y_symbolic"}, call=y_call)
+
+    def inner(expr, *inputs, **kw):
+        rec.setdefault("inner", []).append((list(inputs), dict(kw)))
+        return (A_tok, y_tok)
+
+    def lambdify(args, body, *a, **kw):
+        rec["lambdify"] = (list(args), body)
+
+        def func(*fa, **fk):
+            rec["func_kwargs"] = dict(fk)
+            rec["func_args"] = list(fa)
+            return Obj("matrix", {"fmt": "A_numeric"})
+        return Obj("function", {"fmt": "<lambdified A>"}, call=func)
+    it = make_interp(repo)
+    it.algebra = alg
+    it.overrides["matrixreps.expr_as_matrix"] = PyFunc(inner, "expr_as_matrix", True)
+    it.standins["sympy"] = Obj("module:sympy", {"lambdify": PyFunc(lambdify, "sympy.lambdify", True)})
+    res_like = mv_obj(alg, (4, 1), [1, 1])
+    expr = Obj("function", {"fmt": "<expr>"}, call=lambda *a: Unk("expr must be evaluated on the placeholders by the recursive call"))
+    c0 = f"{q}#placeholders"
+    try:
+        # every symbol of the placeholders and of x is free in y
+        y_tok.attrs["free_symbols"] = Obj("free_symbols", {"fmt": "<all symbols>"}, {"__contains__": lambda k: True})
+        out = it.run(q, [expr, rest[0], rest[1], x], {"res_like": res_like})
+    except NoValue as exc:
+        raise Unknown(c0, str(exc), fn)
+    if out[0] == "raise":
+        ctx.violation(c0, f"array-valued numeric inputs: raises {out[1]}", fn)
+        return
+    # 1. placeholders
+    problems = []
+    if [k for _, k, _ in made] != [tuple(mv.attrs["_keys"]) for mv in rest]:
+        problems.append(f"placeholders are created with keys {[k for _, k, _ in made]} for inputs with keys "
+                        f"{[tuple(mv.attrs['_keys']) for mv in rest]} (their symbols are paired position by position with the input's values)")
+    if len({n for n, _, _ in made}) != len(made):
+        problems.append(f"placeholder names {[n for n, _, _ in made]} are not distinct (their symbols collide)")
+    if problems:
+        ctx.violation(c0, "; ".join(problems), fn)
     else:
-        raise Unknown(c, f"unrecognised pairing {un(pair[0])[:100]}", pair[0])
+        ctx.ok(c0, fn, placeholders=[(n, k) for n, k, _ in made])
+    # 2. the one symbolic evaluation
+    c1 = f"{q}#symbolic-evaluation"
+    inner_calls = rec.get("inner", [])
+    if len(inner_calls) != 1:
+        ctx.violation(c1, f"the expression is evaluated symbolically {len(inner_calls)} times", fn)
+    else:
+        inputs, kw = inner_calls[0]
+        want_inputs = [mv for _, _, mv in made] + [x]
+        if len(inputs) == len(want_inputs) and all(a is b for a, b in zip(inputs, want_inputs)) and kw.get("res_like") is res_like:
+            ctx.ok(c1, fn, inputs=len(inputs))
+        else:
+            ctx.violation(c1, f"the symbolic evaluation receives {[str(i) for i in inputs]} with res_like={kw.get('res_like')!s}; expected the "
+                              f"placeholders in input order followed by x, and the caller's res_like", fn)
+    # 3. bindings
+    c2 = f"{q}#value-pairing"
+    want = {}
+    for (name, keys, smv), mv in zip(made, rest):
+        if len(keys) == len(mv.attrs["_values"]):
+            for sym, val in zip(smv.attrs["_values"], mv.attrs["_values"]):
+                want[str(sym)] = val
+    got = rec.get("func_kwargs")
+    yk = rec.get("y_kwargs")
+    if got is None or yk is None:
+        raise Unknown(c2, f"the lambdified matrix / y were not called with keyword bindings (A: {got is not None}, y: {yk is not None})", fn)
+    bad = [k for k in set(want) | set(got) if got.get(k) is not want.get(k)]
+    want_y = dict(want)
+    want_y.update({str(s_): s_ for s_ in xsyms})
+    bad_y = [k for k in set(want_y) | set(yk) if yk.get(k) is not want_y.get(k)]
+    if bad:
+        k = sorted(bad)[0]
+        ctx.violation(c2, f"the matrix is evaluated with {k} = {got.get(k)!s}, expected {want.get(k)!s} (placeholder symbol i of input j "
+                          f"must be bound to value i of input j); {len(bad)} binding(s) differ", fn)
+    elif bad_y:
+        k = sorted(bad_y)[0]
+        ctx.violation(c2, f"y is evaluated with {k} = {yk.get(k)!s}, expected {want_y.get(k)!s}; {len(bad_y)} binding(s) differ", fn)
+    else:
+        ctx.ok(c2, fn, bindings=len(want))
